@@ -87,3 +87,5 @@ Theorem C07_limb_mga_ops_are_plain_residues_and_agree_with_mgi : Limb_mga_ops_st
 Print Assumptions C07_limb_mga_ops_are_plain_residues_and_agree_with_mgi.
 Theorem C07_limb_inverses_on_units : Limb_inverses_stmt.                       Proof. exact Limb_inverses. Qed.
 Print Assumptions C07_limb_inverses_on_units.
+Theorem C07_limb_composite_operations_compute_the_integer_model : Limb_composite_stmt.   Proof. exact Limb_composite. Qed.
+Print Assumptions C07_limb_composite_operations_compute_the_integer_model.
